@@ -229,8 +229,9 @@ class Evidence:
             "wall_s": round(wall, 2),
             "violations": self.violations,
         }
-        os.makedirs(os.path.join(VERIF, "evidence"), exist_ok=True)
-        path = os.path.join(VERIF, "evidence", f"{self.prop}.json")
+        evdir = os.environ.get("VERIF_EVIDENCE_DIR") or os.path.join(VERIF, "evidence")  # the override is only for seed tests
+        os.makedirs(evdir, exist_ok=True)
+        path = os.path.join(evdir, f"{self.prop}.json")
         tmp = path + ".tmp"
         with open(tmp, "w") as f:
             json.dump(doc, f, indent=1, default=_jsonable)
